@@ -154,6 +154,13 @@ def handcoded(vk, cfg):
             k = int(part[-1])
             t = vk.reals("t", (), near=0.4, spread=0.9)
             R = M.rotation(t, k, batch=2)
+            # the exposed strain energy itself is frame indifferent and isotropic (the softening function of the
+            # pseudo-elastic wrapper is driven by it, so it must not change under a superposed rotation)
+            inner = um.material if path is not None else um
+            if hasattr(inner, "function"):
+                W0 = inner.function([F.copy(), None])[0]
+                vk.ensures_eq(f"objectivity/W(R{k}.F)==W(F)", inner.function([M.mm(R, F), None])[0], W0)
+                vk.ensures_eq(f"isotropy/W(F.R{k})==W(F)", inner.function([M.mm(F, R), None])[0], W0)
             PR = grad(M.mm(R, F))
             vk.ensures_eq(f"objectivity/P(R{k}.F)==R{k}.P(F)", PR[0], M.mm(R, P))
             vk.ensures_eq(f"isotropy/P(F.R{k})==P(F).R{k}", grad(M.mm(F, R))[0], M.mm(P, R))
